@@ -556,8 +556,11 @@ def sync_aware_insertion(state: VRPState, rng: Random) -> VRPState:
             state.unassigned.remove(cid)
             state.sync_assignments[cid] = {v for v, _ in best_insertions}
 
+    # multi-vehicle customers that could not be placed stay unassigned
+    leftover = state.unassigned - set(single)
     state.unassigned = set(single)
     state = regret_insertion(state, rng)
+    state.unassigned |= leftover
 
     state.update_arrival_times()
     return state
